@@ -17,6 +17,8 @@ Sets (per dialect d):
  thorough only:
   D2T  core binary templates over K1 x K1
   D3   core unary templates over D2core (= core unary over K1, core binary over K1xB2 u B2xK1)
+  UX   child-location applicators (properties, patternProperties, prefixItems, contains) whose subschema annotates the
+       child, next to unevaluated* at the parent: annotations must not cross instance locations
   UE2/UI2  X of in-place depth 2 (one operand an in-place combination of 4 atoms)
 Nested templates are made consistent by fixrefs() (pointer rewriting / hoisting of definitions, unique anchors).
 """
@@ -415,6 +417,34 @@ def uneval_family(d, kind, deep):
             yield r
 
 
+def uneval_cross_family(d):
+    """Annotations must not cross instance locations: a child-location applicator (properties, patternProperties, items,
+    prefixItems, contains ...) whose subschema evaluates names/indices *of the child* next to unevaluated* at the parent,
+    bare and under each in-place applicator."""
+    if d not in NEW:
+        return
+    pk = prefix_kw(d)
+    un, bi = inplace_templates(d)
+    inner_p = [{"properties": {"b": True}}, {"patternProperties": {"^b": True}}, {"additionalProperties": True},
+               {"unevaluatedProperties": True}, {"properties": {"b": True, "c": True}}, {"required": ["b"]}]
+    wrap_p = [lambda I: {"properties": {"a": I}}, lambda I: {"patternProperties": {"^a": I}},
+              lambda I: {"properties": {"a": I, "c": True}}, lambda I: {"dependentSchemas": {"b": {"properties": {"a": I}}}}]
+    inner_i = [{pk: [True, True, True]}, {"items": True}, {"contains": {"type": "integer"}}, {"unevaluatedItems": True}, {pk: [True, True]}]
+    wrap_i = [lambda I: {pk: [I]}, lambda I: {"contains": I}, lambda I: {pk: [I], "contains": I}]
+    for kw, inners, wraps in (("unevaluatedProperties", inner_p, wrap_p), ("unevaluatedItems", inner_i, wrap_i)):
+        for I in inners:
+            for w in wraps:
+                X = w(I)
+                cands = [X] + [f(X) for n, f in un.items() if n != "not"] + [f(X, True) for f in bi.values()] + [bi["allOf"](True, X), bi["anyOf"](False, X)]
+                for x in cands:
+                    if kw in x:
+                        continue
+                    for U in (False, {"type": "integer"}):
+                        r = dict(x)
+                        r[kw] = U
+                        yield r
+
+
 def schemas(d, tier):
     """Yield (family, schema) without duplicates (exact member order counts), deterministic order."""
     seen = set()
@@ -450,6 +480,7 @@ def schemas(d, tier):
     yield from emit("D2", apply_binary(BT, CORE_BINARY, mixed))
     yield from emit("UE1", uneval_family(d, "ue", False))
     yield from emit("UI1", uneval_family(d, "ui", False))
+    yield from emit("UX", uneval_cross_family(d))
     if tier != "thorough":
         return
     yield from emit("D2T", apply_binary(BT, CORE_BINARY, itertools.product(K1, K1)))
@@ -477,6 +508,9 @@ OBJ_EXTRA = [{"a": "x"}, {"ab": 1}, {"a": 1, "b": 1, "c": 1}, {"a": None}, {"a":
 EQ_EXTRA = [False, 0.0, [1.0], {"a": 1.0}, "1", {"b": "x", "a": 1}, [None], 1e300]
 TYPE_EXTRA = [False, -0.0, 3.0, 1e300, 1e19, 0.5]
 UE_INST = [{}, {"a": 1}, {"a": 1, "b": "x"}, {"b": 1}, {"a": "x"}, {"ab": 1}, {"a": 1, "b": 1, "c": 1}, {"b": "x", "c": 1}, {"c": 1}, 1, [1]]
+UX_INST = [{"a": {"b": 1}, "b": 2}, {"a": {"b": 1}}, {"a": {"b": 1}, "b": "x"}, {"a": {}, "b": 2}, {"a": 1, "b": 2}, {"b": 2}, {"a": {"b": 1, "c": 1}, "c": 1},
+           {"a": {"b": 1}, "c": 1, "b": 2}, {},
+           [[1, 2, 3], 5, 6], [[1, 2, 3]], [[1], 5], [[1, 2, 3], "x", 6], [1, 5], [["a"], 5, 6], [[1, 2], 5], [], 1]
 UI_INST = [[], [1], [1, 1], [1, "a"], ["a"], ["a", 1], [1, 1, 1], [1, "a", "a"], ["a", "a", 1], 1, {"a": 1}]
 
 KW_NUM = {"minimum", "maximum", "exclusiveMinimum", "exclusiveMaximum", "multipleOf"}
@@ -523,6 +557,8 @@ def instances_for(fam, schema):
         L = list(UE_INST)
     elif fam in ("UI1", "UI2"):
         L = list(UI_INST)
+    elif fam == "UX":
+        L = list(UX_INST)
     else:
         L = list(BASE)
         kws = keywords(schema)
